@@ -176,7 +176,7 @@ impl<'a> HuginnNet<'a> {
         };
 
         let connection_tracker_size = if config.tcp_enabled {
-            max_connections
+            huginn_net_tcp::uptime::tracker_capacity(max_connections)
         } else {
             0
         };
